@@ -1,7 +1,9 @@
 package main
 
 func init() {
-	harnesses = append(harnesses, &Harness{Name: "keepclient", Pkg: "sdk/go/keepclient", Instr: []InstrSpec{{Pkg: "sdk/go/keepclient", Files: []string{"block_cache.go", "root_sorter.go"}, Rules: "R1,R2,R4"}}})
+	harnesses = append(harnesses, &Harness{Name: "keepclient", Pkg: "sdk/go/keepclient", Instr: []InstrSpec{{Pkg: "sdk/go/keepclient", Files: []string{"block_cache.go", "root_sorter.go"}, Rules: "R1,R2,R4"},
+		// the weight function of the rendezvous order: statement-level preemption (C12 runs a concurrent ranker)
+		{Pkg: "sdk/go/keepclient", Files: []string{"support.go"}, Rules: "R9:Md5String"}}})
 	props = append(props, &Prop{ID: "C11", Harness: "keepclient", Level: "exploration",
 		QuickRuns: 20000, QuickChunk: 500, QuickWallS: 60, ThoroughRuns: 3000000, ThoroughChunk: 5000, ThoroughWallS: 600,
 		Rule:         "C11: per run a service set (1-5 writable, 0-2 read-only, disk/proxy), wanted replicas 1-3, retry limit 0-3 and a per-(service,attempt) outcome plan are drawn; PutB/PutHB/PutHR are driven against the simulated transport, which also decides response order.",
